@@ -1,7 +1,7 @@
 (* C12 - Refinement decisions are consistent, exact and terminate.
    Statements only; every proof is [exact <lemma>]. *)
 From FrameModel Require Import Num.QcTac Geometry.Rect Alloc.Alloc Alloc.GeomExtra Alloc.RefinesFacts
-  Alloc.AcceptFacts Alloc.OpsFacts Alloc.DecisionFacts Alloc.GriddifyFacts Alloc.Thr Alloc.ThrFacts Alloc.Hist Alloc.HistFacts.
+  Alloc.AcceptFacts Alloc.OpsFacts Alloc.DecisionFacts Alloc.GriddifyFacts Alloc.GriddifyPieceFacts Alloc.Thr Alloc.ThrFacts Alloc.Hist Alloc.HistFacts.
 Open Scope list_scope.
 Open Scope Qc_scope.
 
@@ -137,6 +137,43 @@ Theorem C12_griddify_aligned : forall eps q cells new,
      (forall y, In y (interior yc) -> ymin (crect f) < y -> y < ymax (crect f) -> refused_y q y cells f)) new.
 Proof. exact griddify_aligned. Qed.
 Print Assumptions C12_griddify_aligned.
+
+(* ... and for the horizontal lines the 1% exception is measured against the PIECE: all x cuts are applied before the
+   first y cut, so a boundary line y still strictly inside a refinable cell f of the result was tried and refused on
+   a cell that contains f and has exactly the x extent of f (refused_y_piece) - one of the two pieces of that cut
+   would have been no thicker than q times the width OF f, however wide the original cell was.  (A y line that is an
+   exempt sliver of every original cell it crosses can be a due cut of a narrower piece; an implementation that
+   selects the lines to try by looking at the original cells leaves it uncut and does not satisfy this.) *)
+Theorem C12_griddify_aligned_piece : forall eps q cells new,
+  Forall (fun c => wf (crect c)) cells -> in_quadrant cells = true ->
+  griddify_cells eps q cells = Some new ->
+  let yc := snd (gather_boundaries eps (map crect cells)) in
+  Forall (fun f => fixed (crect f) = false ->
+     forall y, In y (interior yc) -> ymin (crect f) < y -> y < ymax (crect f) -> refused_y_piece q y cells f) new.
+Proof. exact griddify_aligned_piece. Qed.
+Print Assumptions C12_griddify_aligned_piece.
+Theorem C12_griddify_piece_sliver : forall eps q cells new,
+  Forall (fun c => wf (crect c)) cells -> in_quadrant cells = true ->
+  griddify_cells eps q cells = Some new ->
+  Forall (fun f => fixed (crect f) = false ->
+     forall y, In y (interior (snd (gather_boundaries eps (map crect cells)))) ->
+       ymin (crect f) < y -> y < ymax (crect f) ->
+       exists a, desc cells a /\ is_inside (crect f) (crect a) = true /\
+         ymin (crect a) < y /\ y < ymax (crect a) /\
+         (y - ymin (crect a) <= q * rw (crect f) \/ ymax (crect a) - y <= q * rw (crect f))) new.
+Proof. exact griddify_piece_sliver. Qed.
+Print Assumptions C12_griddify_piece_sliver.
+(* the class is inhabited: in piece_layout (A = [0,128] x [0,8], B beside it defining y = 1, C above its left end defining
+   x = 16) the line y = 1 is cuttable in no original cell, and griddify cuts the left piece [0,16] x [0,8] at y = 1 and
+   leaves the right piece [16,128] x [0,8] whole: 5 cells *)
+Example C12_ex_piece_layout :
+  forallb (fun c => negb (y_cuttable (crect c) (qc 1 1) (qc 1 100))) piece_layout = true /\
+  match griddify_cells (qc 1 1048576) (qc 1 100) piece_layout with
+  | Some new => has_box 0 0 (qc 16 1) (qc 1 1) new && has_box 0 (qc 1 1) (qc 16 1) (qc 8 1) new &&
+                has_box (qc 16 1) 0 (qc 128 1) (qc 8 1) new && Nat.eqb (List.length new) 5
+  | None => false
+  end = true.
+Proof. exact piece_layout_cut. Qed.
 
 (* a refused cut strictly inside a cell is a sliver cut: one piece would be no thicker than q times
    the cell's other side *)
